@@ -50,6 +50,15 @@ var deviations = []deviation{
 	{"sig-wrong-key", func(in *input, c *certSpec) { c.Sig.Signer = kB }, ""},
 	{"sig-stale-nonce", func(in *input, c *certSpec) { c.Sig.Nonce = "stale" }, ""},
 	{"sig-foreign-nonce", func(in *input, c *certSpec) { c.Sig.Nonce = "foreign" }, ""},
+	// signed bytes in the other format than the one the code under test uses
+	{"sig-other-format", func(in *input, c *certSpec) {
+		if boundFormat {
+			c.Sig.Bind = "pinned"
+		} else {
+			c.Sig.Bind = "cert"
+		}
+	}, ""},
+	{"sig-bound-to-other-tls-key", func(in *input, c *certSpec) { c.Sig.Bind = "other" }, ""},
 	{"sig-over-other-name", func(in *input, c *certSpec) { o := nm("new", kB); c.Sig.Over = &o }, ""},
 	{"sig-over-other-style", func(in *input, c *certSpec) { o := nm("upper", kA); c.Sig.Over = &o }, ""},
 	// certificate naming another server's key, proof by the peer's own key
@@ -61,7 +70,11 @@ var deviations = []deviation{
 		c.Sig = sigSpec{Kind: "sig", Signer: kE, Nonce: "stale", How: "oracle"}
 		in.Expected = kE
 	}, ""},
-	{"cn-unheld-key", func(in *input, c *certSpec) { c.CN = nm("new", kNobody); c.URIs = []uriSpec{uriOf(kNobody)}; in.Expected = kNobody }, ""},
+	{"cn-unheld-key", func(in *input, c *certSpec) {
+		c.CN = nm("new", kNobody)
+		c.URIs = []uriSpec{uriOf(kNobody)}
+		in.Expected = kNobody
+	}, ""},
 	{"cn-upper", func(in *input, c *certSpec) { c.CN = nm("upper", kA) }, ""},
 	{"cn-upper-no-uri", func(in *input, c *certSpec) { c.CN = nm("upper", kA); c.URIs = nil }, ""},
 	{"cn-old", func(in *input, c *certSpec) { c.CN = nm("old", kA) }, ""},
@@ -86,7 +99,9 @@ var deviations = []deviation{
 	{"eku-none", func(in *input, c *certSpec) { c.EKU = "none" }, ""},
 	{"critical-extension", func(in *input, c *certSpec) { c.Crit = true }, ""},
 	{"chain-empty", func(in *input, c *certSpec) { in.Chain = nil }, ""},
-	{"chain-two", func(in *input, c *certSpec) { in.Chain = append(in.Chain, rawSpec{Kind: "one", Cert: honestSpec(kB, 1)}) }, ""},
+	{"chain-two", func(in *input, c *certSpec) {
+		in.Chain = append(in.Chain, rawSpec{Kind: "one", Cert: honestSpec(kB, 1)})
+	}, ""},
 	{"chain-two-same", func(in *input, c *certSpec) {
 		if len(in.Chain) > 0 {
 			in.Chain = append(in.Chain, in.Chain[0])
@@ -121,10 +136,16 @@ var deviations = []deviation{
 		c.Sig = sigSpec{Kind: "sig", Signer: kE, Nonce: "cur", How: "oracle"}
 		in.Expected = kE
 	}, ""},
+	// a second identity message, naming another key, in the middle of an established link
+	{"second-identity-other-key", func(in *input, c *certSpec) { in.Reident = kE + 1; in.Msgs = 3 }, "tls"},
+	{"second-identity-held-key", func(in *input, c *certSpec) { in.Reident = kB + 1; in.Msgs = 3 }, "tls"},
 	// identity message after the handshake
 	{"identity-other-key", func(in *input, c *certSpec) { in.Ident = identSpec{Kind: "other", Key: kB} }, "accept-tls"},
 	{"identity-honest-key", func(in *input, c *certSpec) { in.Ident = identSpec{Kind: "other", Key: kE} }, "accept-tls"},
 	{"identity-wrong-type", func(in *input, c *certSpec) { in.Ident = identSpec{Kind: "wrongtype"} }, "accept-tls"},
+	{"identity-bad-key", func(in *input, c *certSpec) { in.Ident = identSpec{Kind: "badkey"} }, "accept-tls"},
+	// F29: the peer proves its own key, then sends an identity without the public-key field
+	{"identity-no-key", func(in *input, c *certSpec) { in.Ident = identSpec{Kind: "nokey"} }, "accept-tls"},
 	{"identity-other-key-old-cn", func(in *input, c *certSpec) {
 		c.CN = nm("old", kA)
 		in.Ident = identSpec{Kind: "other", Key: kB}
@@ -187,6 +208,8 @@ func corpus() []interface{} {
 			ins = append(ins, deviate("unit", s, r, find("relay")))
 			ins = append(ins, deviate("tls", s, r, find("relay")))
 		}
+		// F29 witness (Tls.crash_refuted)
+		ins = append(ins, deviate("tls", s, "accept", find("identity-no-key")))
 		// honest handshakes
 		for _, r := range roles {
 			ins = append(ins, base("unit", s, r, kA))
@@ -208,7 +231,7 @@ func mutate(rng *rand.Rand, in *input, n int) {
 			return
 		}
 		c := in.Chain[0].Cert
-		switch rng.Intn(14) {
+		switch rng.Intn(15) {
 		case 0:
 			c.CN = randName(rng)
 		case 1:
@@ -272,6 +295,8 @@ func mutate(rng *rand.Rand, in *input, n int) {
 			case 3:
 				in.Chain = append([]rawSpec{{Kind: "junk"}}, in.Chain...)
 			}
+		case 14:
+			c.Sig.Bind = []string{"", "pinned", "cert", "other"}[rng.Intn(4)]
 		case 13:
 			if in.Level == "tls" {
 				switch rng.Intn(4) {
@@ -280,7 +305,9 @@ func mutate(rng *rand.Rand, in *input, n int) {
 				case 1:
 					in.Ident = identSpec{Kind: "other", Key: rng.Intn(nKeys-1) + 1}
 				case 2:
-					in.Ident = identSpec{Kind: "wrongtype"}
+					in.Ident = identSpec{Kind: []string{"wrongtype", "badkey", "nokey"}[rng.Intn(3)]}
+				case 3:
+					in.Reident = rng.Intn(nKeys-1) + 2
 				}
 			}
 		}
@@ -327,7 +354,7 @@ func generate(rng *rand.Rand, tier string) []interface{} {
 		for _, r := range roles {
 			for i := 0; i < nd; i++ {
 				for j := i + 1; j < nd; j++ {
-					if tier == "quick" && (i*31+j*17+len(s)+len(r))%4 != 0 {
+					if tier == "quick" && (i*31+j*17+len(s)+len(r))%2 != 0 {
 						continue
 					}
 					a, b := deviations[i], deviations[j]
@@ -350,9 +377,9 @@ func generate(rng *rand.Rand, tier string) []interface{} {
 		}
 	}
 	// 3. seeded random combinations
-	nUnit, nTLS := 600, 40
+	nUnit, nTLS := 2500, 400
 	if tier != "quick" {
-		nUnit, nTLS = 12000, 1200
+		nUnit, nTLS = 60000, 6000
 	}
 	for i := 0; i < nUnit+nTLS; i++ {
 		level := "unit"
